@@ -4,14 +4,15 @@
 import Cvss.Model.Any
 import Cvss.Spec.Grammar
 import Cvss.Gen.Exc
+import Cvss.Lemmas.Parse
 namespace Cvss.Props.C04
-open Cvss Cvss.Model
+open Cvss Cvss.Model Cvss.Spec.Grammar
 
 def sameSet (a b : List Str) : Bool := a.all (· ∈ b) && b.all (· ∈ a) && a.length == b.length
 
 /-- the tables the parser consults describe the specification's vocabulary:
     same metrics in the same order, the same legal values per metric, same mandatory metrics -/
-def vocabPinned (T : Tables) (g : Spec.Grammar.G) : Bool :=
+def vocabPinned (T : Tables) (g : G) : Bool :=
   T.abbrs == keys g.vocab &&
   g.vocab.all (fun (m, vs) => match lookup m T.legal with
     | some ws => sameSet vs ws
@@ -19,17 +20,21 @@ def vocabPinned (T : Tables) (g : Spec.Grammar.G) : Bool :=
   (keys T.legal).all (fun m => m ∈ keys g.vocab) &&
   T.mandatory == g.mandatory
 
-theorem vocab_pinned_v2 : vocabPinned V2.tables Spec.Grammar.g2 = true := by decide +kernel
-theorem vocab_pinned_v3 : vocabPinned V3.tables Spec.Grammar.g3 = true := by decide +kernel
-theorem vocab_pinned_v4 : vocabPinned V4.tables Spec.Grammar.g4 = true := by decide +kernel
+theorem vocab_pinned_v2 : vocabPinned V2.tables g2 = true := by decide +kernel
+theorem vocab_pinned_v3 : vocabPinned V3.tables g3 = true := by decide +kernel
+theorem vocab_pinned_v4 : vocabPinned V4.tables g4 = true := by decide +kernel
 
-/-- no metric or value token contains a separator, and none is empty -/
-def tokensClean (g : Spec.Grammar.G) : Bool :=
+/-- no metric or value token contains a separator, none is empty, and no metric repeats in the
+    vocabulary -/
+def tokensClean (g : G) : Bool :=
   g.vocab.all (fun (m, vs) => m ≠ [] && !m.contains '/' && !m.contains ':' &&
-    vs.all (fun v => v ≠ [] && !v.contains '/' && !v.contains ':'))
+    vs.all (fun v => v ≠ [] && !v.contains '/' && !v.contains ':')) && decide (keys g.vocab).Nodup
 
-theorem tokens_clean : tokensClean Spec.Grammar.g2 = true ∧ tokensClean Spec.Grammar.g3 = true ∧
-    tokensClean Spec.Grammar.g4 = true := by decide +kernel
+theorem tokens_clean : tokensClean g2 = true ∧ tokensClean g3 = true ∧ tokensClean g4 = true := by
+  decide +kernel
+
+theorem tables_wf : V2.tables.wf = true ∧ V3.tables.wf = true ∧ V4.tables.wf = true := by
+  decide +kernel
 
 /-- exception taxonomy: every class the constructors raise is under its version's base class, which is
     under `CVSSError` -/
@@ -43,5 +48,505 @@ theorem taxonomy :
       ([c!"MalformedError", c!"MandatoryError", c!"RHMalformedError", c!"RHScoreDoesNotMatch"].all fun k =>
         under (v ++ k) (v ++ c!"Error") && under (v ++ k) c!"CVSSError") &&
       under (v ++ c!"Error") c!"CVSSError") = true := by decide +kernel
+
+/-! ### from the Boolean checkers to propositions (generic in the tables and the grammar) -/
+
+theorem sameSet_iff {a b : List Str} (h : sameSet a b = true) (v : Str) : v ∈ a ↔ v ∈ b := by
+  unfold sameSet at h
+  simp only [Bool.and_eq_true, List.all_eq_true, decide_eq_true_eq] at h
+  exact ⟨h.1.1 v, h.1.2 v⟩
+
+theorem pinned_abbrs {T : Tables} {g : G} (h : vocabPinned T g = true) : T.abbrs = keys g.vocab := by
+  unfold vocabPinned at h
+  simp only [Bool.and_eq_true] at h
+  exact eq_of_beq h.1.1.1
+
+theorem pinned_mandatory {T : Tables} {g : G} (h : vocabPinned T g = true) :
+    T.mandatory = g.mandatory := by
+  unfold vocabPinned at h
+  simp only [Bool.and_eq_true] at h
+  exact eq_of_beq h.2
+
+theorem pinned_legal {T : Tables} {g : G} (h : vocabPinned T g = true) {m : Str} {vs : List Str}
+    (hl : lookup m g.vocab = some vs) :
+    ∃ ws, lookup m T.legal = some ws ∧ ∀ v, v ∈ vs ↔ v ∈ ws := by
+  unfold vocabPinned at h
+  simp only [Bool.and_eq_true] at h
+  have := List.all_eq_true.1 h.1.1.2 (m, vs) (mem_of_lookup_eq_some _ _ _ hl)
+  simp only at this
+  split at this
+  · rename_i ws hws
+    exact ⟨ws, hws, sameSet_iff this⟩
+  · cases this
+
+theorem clean_tokens {g : G} (h : tokensClean g = true) {m : Str} {vs : List Str}
+    (hm : (m, vs) ∈ g.vocab) : '/' ∉ m ∧ ':' ∉ m ∧ ∀ v ∈ vs, '/' ∉ v ∧ ':' ∉ v := by
+  unfold tokensClean at h
+  simp only [Bool.and_eq_true] at h
+  have := List.all_eq_true.1 h.1 (m, vs) hm
+  simp only [Bool.and_eq_true, List.all_eq_true] at this
+  obtain ⟨⟨⟨-, h1⟩, h2⟩, h3⟩ := this
+  refine ⟨by simpa using h1, by simpa using h2, ?_⟩
+  intro v hv
+  obtain ⟨⟨-, h4⟩, h5⟩ := h3 v hv
+  exact ⟨by simpa using h4, by simpa using h5⟩
+
+/-- the parser's tables are well formed and describe the (clean) vocabulary of the grammar -/
+structure Pinned (T : Tables) (g : G) : Prop where
+  wf : T.wf = true
+  pinned : vocabPinned T g = true
+  clean : tokensClean g = true
+
+theorem pinned2 : Pinned V2.tables g2 := ⟨tables_wf.1, vocab_pinned_v2, tokens_clean.1⟩
+theorem pinned3 : Pinned V3.tables g3 := ⟨tables_wf.2.1, vocab_pinned_v3, tokens_clean.2.1⟩
+theorem pinned4 : Pinned V4.tables g4 := ⟨tables_wf.2.2, vocab_pinned_v4, tokens_clean.2.2⟩
+
+section generic
+variable {T : Tables} {g : G}
+
+/-- a field of the grammar is the text of a legal pair of the tables -/
+theorem Pinned.isField_iff (h : Pinned T g) (f m : Str) :
+    IsField g f m ↔ ∃ v, f = fieldOf (m, v) ∧ LegalPair T (m, v) := by
+  constructor
+  · rintro ⟨vs, v, hl, hv, rfl⟩
+    obtain ⟨ws, hws, hiff⟩ := pinned_legal h.pinned hl
+    have hmem := mem_of_lookup_eq_some _ _ _ hl
+    obtain ⟨-, hc, hvs⟩ := clean_tokens h.clean hmem
+    refine ⟨v, rfl, ?_, ⟨ws, hws, (hiff v).1 hv⟩, hc, (hvs v hv).2⟩
+    rw [pinned_abbrs h.pinned]
+    exact mem_keys_of_mem hmem
+  · rintro ⟨v, rfl, hab, ⟨ws, hws, hv⟩, -, -⟩
+    simp only at hab hws hv
+    rw [pinned_abbrs h.pinned] at hab
+    obtain ⟨vs, hvs⟩ := Option.isSome_iff_exists.1 ((lookup_isSome_iff_mem_keys _ _).2 hab)
+    obtain ⟨ws', hws', hiff⟩ := pinned_legal h.pinned hvs
+    rw [hws] at hws'
+    cases hws'
+    exact ⟨vs, v, hvs, (hiff v).2 hv, rfl⟩
+
+/-- legal pairs are free of '/' -/
+theorem Pinned.slashFree (h : Pinned T g) {kv : Str × Str} (hl : LegalPair T kv) :
+    '/' ∉ kv.1 ∧ '/' ∉ kv.2 := by
+  obtain ⟨m, v⟩ := kv
+  obtain ⟨vs, v', hvs, hv', hf⟩ := (h.isField_iff _ m).2 ⟨v, rfl, hl⟩
+  have hvv : v = v' := by simpa [fieldOf] using hf
+  subst hvv
+  obtain ⟨hc, -, hall⟩ := clean_tokens h.clean (mem_of_lookup_eq_some _ _ _ hvs)
+  exact ⟨hc, (hall v hv').1⟩
+
+theorem Pinned.fieldsOf_iff (h : Pinned T g) (fields ms : List Str) :
+    FieldsOf g fields ms ↔
+      ∃ mm : MMap, fields = mm.map fieldOf ∧ ms = keys mm ∧ ∀ kv ∈ mm, LegalPair T kv := by
+  induction fields generalizing ms with
+  | nil =>
+    cases ms with
+    | nil =>
+      simp only [FieldsOf, true_iff]
+      exact ⟨[], rfl, rfl, by simp⟩
+    | cons m ms =>
+      simp only [FieldsOf, false_iff]
+      rintro ⟨mm, h1, h2, -⟩
+      have : mm = [] := by simpa using h1.symm
+      subst this
+      simp [keys] at h2
+  | cons f fs ih =>
+    cases ms with
+    | nil =>
+      simp only [FieldsOf, false_iff]
+      rintro ⟨mm, h1, h2, -⟩
+      have : mm = [] := by simpa [keys] using h2.symm
+      subst this
+      simp at h1
+    | cons m ms =>
+      simp only [FieldsOf]
+      constructor
+      · rintro ⟨hf, hrest⟩
+        obtain ⟨v, rfl, hl⟩ := (h.isField_iff _ _).1 hf
+        obtain ⟨mm, rfl, rfl, hleg⟩ := (ih ms).1 hrest
+        refine ⟨(m, v) :: mm, rfl, rfl, ?_⟩
+        intro kv hkv
+        rcases List.mem_cons.1 hkv with rfl | hkv
+        · exact hl
+        · exact hleg kv hkv
+      · rintro ⟨mm, h1, h2, hleg⟩
+        cases mm with
+        | nil => simp at h1
+        | cons kv mm' =>
+          obtain ⟨k, v⟩ := kv
+          simp only [List.map_cons, List.cons.injEq, keys] at h1 h2
+          obtain ⟨rfl, rfl⟩ := h1
+          obtain ⟨rfl, rfl⟩ := h2
+          refine ⟨(h.isField_iff _ _).2 ⟨v, rfl, hleg _ (by simp)⟩, (ih _).2 ⟨mm', rfl, rfl, ?_⟩⟩
+          exact fun kv hkv => hleg kv (List.mem_cons_of_mem _ hkv)
+
+theorem Pinned.wellFormed_iff (h : Pinned T g) (s : Str) (ms : List Str) :
+    WellFormed g s ms ↔
+      ∃ p ∈ g.prefixes, ∃ mm : MMap, s = p ++ join '/' (mm.map fieldOf) ∧ mm ≠ [] ∧
+        (∀ kv ∈ mm, LegalPair T kv) ∧ (keys mm).Nodup ∧ ms = keys mm := by
+  constructor
+  · rintro ⟨p, fields, hp, rfl, hne, hfo, hnd⟩
+    obtain ⟨mm, rfl, rfl, hleg⟩ := (h.fieldsOf_iff _ _).1 hfo
+    exact ⟨p, hp, mm, rfl, by simpa using hne, hleg, hnd, rfl⟩
+  · rintro ⟨p, hp, mm, rfl, hne, hleg, hnd, rfl⟩
+    exact ⟨p, _, hp, rfl, by simpa using hne, (h.fieldsOf_iff _ _).2 ⟨mm, rfl, rfl, hleg⟩, hnd⟩
+
+theorem Pinned.accepts_iff (h : Pinned T g) (s : Str) :
+    Accepts g s ↔
+      ∃ p ∈ g.prefixes, ∃ mm : MMap, s = p ++ join '/' (mm.map fieldOf) ∧ mm ≠ [] ∧
+        (∀ kv ∈ mm, LegalPair T kv) ∧ (keys mm).Nodup ∧ ∀ k ∈ T.mandatory, k ∈ keys mm := by
+  unfold Accepts
+  rw [pinned_mandatory h.pinned]
+  constructor
+  · rintro ⟨ms, hwf, hm⟩
+    obtain ⟨p, hp, mm, hs, hne, hl, hn, rfl⟩ := (h.wellFormed_iff _ _).1 hwf
+    exact ⟨p, hp, mm, hs, hne, hl, hn, hm⟩
+  · rintro ⟨p, hp, mm, hs, hne, hl, hn, hm⟩
+    exact ⟨keys mm, (h.wellFormed_iff _ _).2 ⟨p, hp, mm, hs, hne, hl, hn, rfl⟩, hm⟩
+
+theorem Pinned.lacks_iff (h : Pinned T g) (s : Str) :
+    LacksMandatory g s ↔
+      ∃ p ∈ g.prefixes, ∃ mm : MMap, s = p ++ join '/' (mm.map fieldOf) ∧ mm ≠ [] ∧
+        (∀ kv ∈ mm, LegalPair T kv) ∧ (keys mm).Nodup ∧ ∃ k ∈ T.mandatory, k ∉ keys mm := by
+  unfold LacksMandatory
+  rw [pinned_mandatory h.pinned]
+  constructor
+  · rintro ⟨ms, hwf, hm⟩
+    obtain ⟨p, hp, mm, hs, hne, hl, hn, rfl⟩ := (h.wellFormed_iff _ _).1 hwf
+    exact ⟨p, hp, mm, hs, hne, hl, hn, hm⟩
+  · rintro ⟨p, hp, mm, hs, hne, hl, hn, hm⟩
+    exact ⟨keys mm, (h.wellFormed_iff _ _).2 ⟨p, hp, mm, hs, hne, hl, hn, rfl⟩, hm⟩
+
+end generic
+
+/-! ### the accepted prefixes -/
+
+theorem pfxOk3 : PfxOk V3.prefixes := by
+  refine ⟨?_, by decide⟩
+  intro p hp
+  simp only [V3.prefixes, List.mem_cons, List.not_mem_nil, or_false] at hp
+  rcases hp with rfl | rfl
+  · exact ⟨c!"CVSS:3.0", rfl, by decide⟩
+  · exact ⟨c!"CVSS:3.1", rfl, by decide⟩
+
+theorem pfxOk4 : PfxOk [V4.pfx] := by
+  refine ⟨?_, by decide⟩
+  intro p hp
+  simp only [List.mem_cons, List.not_mem_nil, or_false] at hp
+  subst hp
+  exact ⟨c!"CVSS:4.0", rfl, by decide⟩
+
+/-! ### `parse` = `parse_vector` then `check_mandatory`, per version -/
+
+theorem v2_parse_eq_ok (s : Str) (m : MMap) :
+    V2.parse s = .ok m ↔
+      parseNoPrefix V2.tables s = .ok m ∧ ∀ k ∈ V2.tables.mandatory, k ∈ keys m := by
+  unfold V2.parse
+  cases hf : parseNoPrefix V2.tables s with
+  | error e => simp
+  | ok m' =>
+    simp only
+    cases hc : checkMandatory V2.tables m' with
+    | error e =>
+      simp only
+      constructor
+      · intro h; cases h
+      · rintro ⟨h1, h2⟩
+        cases h1
+        rw [(checkMandatory_ok_iff _ _).2 h2] at hc
+        cases hc
+    | ok u =>
+      simp only
+      constructor
+      · intro h; cases h
+        exact ⟨rfl, (checkMandatory_ok_iff _ _).1 hc⟩
+      · rintro ⟨h1, -⟩; exact h1
+
+theorem v2_parse_eq_error (s : Str) (e : Err) :
+    V2.parse s = .error e ↔
+      parseNoPrefix V2.tables s = .error e ∨
+        ∃ m, parseNoPrefix V2.tables s = .ok m ∧ e = .mandatory ∧
+          ∃ k ∈ V2.tables.mandatory, k ∉ keys m := by
+  unfold V2.parse
+  cases hf : parseNoPrefix V2.tables s with
+  | error e' => simp
+  | ok m' =>
+    simp only
+    cases hc : checkMandatory V2.tables m' with
+    | error e' =>
+      simp only
+      obtain ⟨rfl, hk⟩ := (checkMandatory_error_iff _ _ _).1 hc
+      constructor
+      · intro h; cases h
+        exact Or.inr ⟨m', rfl, rfl, hk⟩
+      · rintro (h | ⟨m, h1, rfl, -⟩)
+        · cases h
+        · rfl
+    | ok u =>
+      simp only
+      constructor
+      · intro h; cases h
+      · rintro (h | ⟨m, h1, rfl, hk⟩)
+        · cases h
+        · cases h1
+          obtain ⟨k, hk1, hk2⟩ := hk
+          exact absurd ((checkMandatory_ok_iff _ _).1 hc k hk1) hk2
+
+theorem v3_parse_eq_ok (s : Str) (i : Nat) (m : MMap) :
+    V3.parse s = .ok (i, m) ↔
+      parseWithPrefix V3.tables V3.prefixes s = .ok (i, m) ∧ ∀ k ∈ V3.tables.mandatory, k ∈ keys m := by
+  unfold V3.parse
+  cases hf : parseWithPrefix V3.tables V3.prefixes s with
+  | error e => simp
+  | ok r =>
+    obtain ⟨j, m'⟩ := r
+    simp only
+    cases hc : checkMandatory V3.tables m' with
+    | error e =>
+      simp only
+      constructor
+      · intro h; cases h
+      · rintro ⟨h1, h2⟩
+        cases h1
+        rw [(checkMandatory_ok_iff _ _).2 h2] at hc
+        cases hc
+    | ok u =>
+      simp only
+      constructor
+      · intro h; cases h
+        exact ⟨rfl, (checkMandatory_ok_iff _ _).1 hc⟩
+      · rintro ⟨h1, -⟩; exact h1
+
+theorem v3_parse_eq_error (s : Str) (e : Err) :
+    V3.parse s = .error e ↔
+      parseWithPrefix V3.tables V3.prefixes s = .error e ∨
+        ∃ i m, parseWithPrefix V3.tables V3.prefixes s = .ok (i, m) ∧ e = .mandatory ∧
+          ∃ k ∈ V3.tables.mandatory, k ∉ keys m := by
+  unfold V3.parse
+  cases hf : parseWithPrefix V3.tables V3.prefixes s with
+  | error e' => simp
+  | ok r =>
+    obtain ⟨j, m'⟩ := r
+    simp only
+    cases hc : checkMandatory V3.tables m' with
+    | error e' =>
+      simp only
+      obtain ⟨rfl, hk⟩ := (checkMandatory_error_iff _ _ _).1 hc
+      constructor
+      · intro h; cases h
+        exact Or.inr ⟨j, m', rfl, rfl, hk⟩
+      · rintro (h | ⟨i, m, h1, rfl, -⟩)
+        · cases h
+        · rfl
+    | ok u =>
+      simp only
+      constructor
+      · intro h; cases h
+      · rintro (h | ⟨i, m, h1, rfl, hk⟩)
+        · cases h
+        · cases h1
+          obtain ⟨k, hk1, hk2⟩ := hk
+          exact absurd ((checkMandatory_ok_iff _ _).1 hc k hk1) hk2
+
+theorem v4_parse_eq_ok (s : Str) (m : MMap) :
+    V4.parse s = .ok m ↔
+      (∃ i, parseWithPrefix V4.tables [V4.pfx] s = .ok (i, m)) ∧
+        ∀ k ∈ V4.tables.mandatory, k ∈ keys m := by
+  unfold V4.parse
+  cases hf : parseWithPrefix V4.tables [V4.pfx] s with
+  | error e => simp
+  | ok r =>
+    obtain ⟨j, m'⟩ := r
+    simp only
+    cases hc : checkMandatory V4.tables m' with
+    | error e =>
+      simp only
+      constructor
+      · intro h; cases h
+      · rintro ⟨⟨i, h1⟩, h2⟩
+        cases h1
+        rw [(checkMandatory_ok_iff _ _).2 h2] at hc
+        cases hc
+    | ok u =>
+      simp only
+      constructor
+      · intro h; cases h
+        exact ⟨⟨j, rfl⟩, (checkMandatory_ok_iff _ _).1 hc⟩
+      · rintro ⟨⟨i, h1⟩, -⟩; cases h1; rfl
+
+theorem v4_parse_eq_error (s : Str) (e : Err) :
+    V4.parse s = .error e ↔
+      parseWithPrefix V4.tables [V4.pfx] s = .error e ∨
+        ∃ i m, parseWithPrefix V4.tables [V4.pfx] s = .ok (i, m) ∧ e = .mandatory ∧
+          ∃ k ∈ V4.tables.mandatory, k ∉ keys m := by
+  unfold V4.parse
+  cases hf : parseWithPrefix V4.tables [V4.pfx] s with
+  | error e' => simp
+  | ok r =>
+    obtain ⟨j, m'⟩ := r
+    simp only
+    cases hc : checkMandatory V4.tables m' with
+    | error e' =>
+      simp only
+      obtain ⟨rfl, hk⟩ := (checkMandatory_error_iff _ _ _).1 hc
+      constructor
+      · intro h; cases h
+        exact Or.inr ⟨j, m', rfl, rfl, hk⟩
+      · rintro (h | ⟨i, m, h1, rfl, -⟩)
+        · cases h
+        · rfl
+    | ok u =>
+      simp only
+      constructor
+      · intro h; cases h
+      · rintro (h | ⟨i, m, h1, rfl, hk⟩)
+        · cases h
+        · cases h1
+          obtain ⟨k, hk1, hk2⟩ := hk
+          exact absurd ((checkMandatory_ok_iff _ _).1 hc k hk1) hk2
+
+/-! ### shape of the parsed map, and rendering then parsing -/
+
+/-- the parsed map is the list of (metric, value) pairs of the fields, in input order:
+    (used by C05/C07) the v3 minor version is the index of the prefix -/
+theorem v2_parse_ok_fields (s : Str) (m : MMap) (h : V2.parse s = .ok m) :
+    s = join '/' (m.map fieldOf) ∧ m ≠ [] ∧ (∀ kv ∈ m, LegalPair V2.tables kv) ∧ (keys m).Nodup ∧
+      ∀ k ∈ V2.tables.mandatory, k ∈ keys m := by
+  obtain ⟨hf, hm⟩ := (v2_parse_eq_ok s m).1 h
+  obtain ⟨h1, h2, h3, h4⟩ := parseNoPrefix_ok_of _ pinned2.wf s m hf
+  exact ⟨h1, h2, h3, h4, hm⟩
+
+theorem v3_parse_ok_fields (s : Str) (i : Nat) (m : MMap) (h : V3.parse s = .ok (i, m)) :
+    (∃ p, V3.prefixes[i]? = some p ∧ s = p ++ join '/' (m.map fieldOf)) ∧ m ≠ [] ∧
+      (∀ kv ∈ m, LegalPair V3.tables kv) ∧ (keys m).Nodup ∧ ∀ k ∈ V3.tables.mandatory, k ∈ keys m := by
+  obtain ⟨hf, hm⟩ := (v3_parse_eq_ok s i m).1 h
+  obtain ⟨h1, h2, h3, h4⟩ := parseWithPrefix_ok_of _ pinned3.wf _ pfxOk3.1 s i m hf
+  exact ⟨h1, h2, h3, h4, hm⟩
+
+theorem v4_parse_ok_fields (s : Str) (m : MMap) (h : V4.parse s = .ok m) :
+    s = V4.pfx ++ join '/' (m.map fieldOf) ∧ m ≠ [] ∧ (∀ kv ∈ m, LegalPair V4.tables kv) ∧ (keys m).Nodup ∧
+      ∀ k ∈ V4.tables.mandatory, k ∈ keys m := by
+  obtain ⟨⟨i, hf⟩, hm⟩ := (v4_parse_eq_ok s m).1 h
+  obtain ⟨⟨p, hp, hs⟩, h2, h3, h4⟩ := parseWithPrefix_ok_of _ pinned4.wf _ pfxOk4.1 s i m hf
+  have hp' : p = V4.pfx := by
+    have := List.mem_of_getElem? hp
+    simpa using this
+  subst hp'
+  exact ⟨hs, h2, h3, h4, hm⟩
+
+/-- converse: a map with legal, '/'-free, distinct pairs covering the mandatory metrics is what
+    parsing its rendering returns (any order of the pairs) -/
+theorem v2_parse_render (m : MMap) (hne : m ≠ []) (hl : ∀ kv ∈ m, LegalPair V2.tables kv)
+    (hs : ∀ kv ∈ m, '/' ∉ kv.1 ∧ '/' ∉ kv.2) (hn : (keys m).Nodup) (hm : ∀ k ∈ V2.tables.mandatory, k ∈ keys m) :
+    V2.parse (join '/' (m.map fieldOf)) = .ok m :=
+  (v2_parse_eq_ok _ m).2 ⟨parseNoPrefix_ok _ pinned2.wf m hne hl hs hn, hm⟩
+
+theorem v3_parse_render (i : Nat) (p : Str) (hp : V3.prefixes[i]? = some p) (m : MMap) (hne : m ≠ [])
+    (hl : ∀ kv ∈ m, LegalPair V3.tables kv) (hs : ∀ kv ∈ m, '/' ∉ kv.1 ∧ '/' ∉ kv.2) (hn : (keys m).Nodup)
+    (hm : ∀ k ∈ V3.tables.mandatory, k ∈ keys m) :
+    V3.parse (p ++ join '/' (m.map fieldOf)) = .ok (i, m) :=
+  (v3_parse_eq_ok _ i m).2 ⟨parseWithPrefix_ok _ pinned3.wf _ pfxOk3 i p hp m hne hl hs hn, hm⟩
+
+theorem v4_parse_render (m : MMap) (hne : m ≠ []) (hl : ∀ kv ∈ m, LegalPair V4.tables kv)
+    (hs : ∀ kv ∈ m, '/' ∉ kv.1 ∧ '/' ∉ kv.2) (hn : (keys m).Nodup) (hm : ∀ k ∈ V4.tables.mandatory, k ∈ keys m) :
+    V4.parse (V4.pfx ++ join '/' (m.map fieldOf)) = .ok m :=
+  (v4_parse_eq_ok _ m).2
+    ⟨⟨0, parseWithPrefix_ok _ pinned4.wf _ pfxOk4 0 V4.pfx rfl m hne hl hs hn⟩, hm⟩
+
+/-! ### acceptance of `parse_vector` + `check_mandatory` is exactly the grammar -/
+
+/-- v2: parsing succeeds exactly on the strings of the v2 grammar -/
+theorem v2_parse_ok_iff (s : Str) : (∃ m, V2.parse s = .ok m) ↔ Accepts g2 s := by
+  rw [pinned2.accepts_iff]
+  constructor
+  · rintro ⟨m, h⟩
+    obtain ⟨h1, h2, h3, h4, h5⟩ := v2_parse_ok_fields s m h
+    exact ⟨[], by simp [g2], m, by simpa using h1, h2, h3, h4, h5⟩
+  · rintro ⟨p, hp, mm, rfl, hne, hl, hn, hm⟩
+    have hp' : p = [] := by simpa [g2] using hp
+    subst hp'
+    exact ⟨mm, v2_parse_render mm hne hl (fun kv hkv => pinned2.slashFree (hl kv hkv)) hn hm⟩
+
+/-- v2: the mandatory-metric error is raised exactly for well-formed vectors lacking a mandatory metric -/
+theorem v2_parse_mandatory_iff (s : Str) : V2.parse s = .error .mandatory ↔ LacksMandatory g2 s := by
+  rw [pinned2.lacks_iff, v2_parse_eq_error]
+  constructor
+  · rintro (h | ⟨m, hf, -, hk⟩)
+    · cases parseNoPrefix_error _ pinned2.wf _ _ h
+    · obtain ⟨h1, h2, h3, h4⟩ := parseNoPrefix_ok_of _ pinned2.wf s m hf
+      exact ⟨[], by simp [g2], m, by simpa using h1, h2, h3, h4, hk⟩
+  · rintro ⟨p, hp, mm, rfl, hne, hl, hn, hk⟩
+    have hp' : p = [] := by simpa [g2] using hp
+    subst hp'
+    refine Or.inr ⟨mm, ?_, rfl, hk⟩
+    exact parseNoPrefix_ok _ pinned2.wf mm hne hl (fun kv hkv => pinned2.slashFree (hl kv hkv)) hn
+
+/-- v2: every other string raises the malformed-vector error; nothing else can come out of parsing -/
+theorem v2_parse_error (s : Str) (e : Err) (h : V2.parse s = .error e) : e = .malformed ∨ e = .mandatory := by
+  rcases (v2_parse_eq_error s e).1 h with h | ⟨m, -, rfl, -⟩
+  · exact Or.inl (parseNoPrefix_error _ pinned2.wf _ _ h)
+  · exact Or.inr rfl
+
+theorem v3_parse_ok_iff (s : Str) : (∃ r, V3.parse s = .ok r) ↔ Accepts g3 s := by
+  rw [pinned3.accepts_iff]
+  constructor
+  · rintro ⟨⟨i, m⟩, h⟩
+    obtain ⟨⟨p, hp, h1⟩, h2, h3, h4, h5⟩ := v3_parse_ok_fields s i m h
+    exact ⟨p, List.mem_of_getElem? hp, m, h1, h2, h3, h4, h5⟩
+  · rintro ⟨p, hp, mm, rfl, hne, hl, hn, hm⟩
+    obtain ⟨i, hi⟩ := List.mem_iff_getElem?.1 hp
+    exact ⟨(i, mm), v3_parse_render i p hi mm hne hl
+      (fun kv hkv => pinned3.slashFree (hl kv hkv)) hn hm⟩
+
+theorem v3_parse_mandatory_iff (s : Str) : V3.parse s = .error .mandatory ↔ LacksMandatory g3 s := by
+  rw [pinned3.lacks_iff, v3_parse_eq_error]
+  constructor
+  · rintro (h | ⟨i, m, hf, -, hk⟩)
+    · cases parseWithPrefix_error _ pinned3.wf _ _ _ h
+    · obtain ⟨⟨p, hp, h1⟩, h2, h3, h4⟩ := parseWithPrefix_ok_of _ pinned3.wf _ pfxOk3.1 s i m hf
+      exact ⟨p, List.mem_of_getElem? hp, m, h1, h2, h3, h4, hk⟩
+  · rintro ⟨p, hp, mm, rfl, hne, hl, hn, hk⟩
+    obtain ⟨i, hi⟩ := List.mem_iff_getElem?.1 hp
+    refine Or.inr ⟨i, mm, ?_, rfl, hk⟩
+    exact parseWithPrefix_ok _ pinned3.wf _ pfxOk3 i p hi mm hne hl
+      (fun kv hkv => pinned3.slashFree (hl kv hkv)) hn
+
+theorem v3_parse_error (s : Str) (e : Err) (h : V3.parse s = .error e) : e = .malformed ∨ e = .mandatory := by
+  rcases (v3_parse_eq_error s e).1 h with h | ⟨i, m, -, rfl, -⟩
+  · exact Or.inl (parseWithPrefix_error _ pinned3.wf _ _ _ h)
+  · exact Or.inr rfl
+
+theorem v4_parse_ok_iff (s : Str) : (∃ m, V4.parse s = .ok m) ↔ Accepts g4 s := by
+  rw [pinned4.accepts_iff]
+  constructor
+  · rintro ⟨m, h⟩
+    obtain ⟨h1, h2, h3, h4, h5⟩ := v4_parse_ok_fields s m h
+    exact ⟨V4.pfx, by simp [g4, V4.pfx], m, h1, h2, h3, h4, h5⟩
+  · rintro ⟨p, hp, mm, rfl, hne, hl, hn, hm⟩
+    have hp' : p = V4.pfx := by simpa [g4, V4.pfx] using hp
+    subst hp'
+    exact ⟨mm, v4_parse_render mm hne hl (fun kv hkv => pinned4.slashFree (hl kv hkv)) hn hm⟩
+
+theorem v4_parse_mandatory_iff (s : Str) : V4.parse s = .error .mandatory ↔ LacksMandatory g4 s := by
+  rw [pinned4.lacks_iff, v4_parse_eq_error]
+  constructor
+  · rintro (h | ⟨i, m, hf, -, hk⟩)
+    · cases parseWithPrefix_error _ pinned4.wf _ _ _ h
+    · obtain ⟨⟨p, hp, h1⟩, h2, h3, h4⟩ := parseWithPrefix_ok_of _ pinned4.wf _ pfxOk4.1 s i m hf
+      exact ⟨p, List.mem_of_getElem? hp, m, h1, h2, h3, h4, hk⟩
+  · rintro ⟨p, hp, mm, rfl, hne, hl, hn, hk⟩
+    obtain ⟨i, hi⟩ := List.mem_iff_getElem?.1 hp
+    refine Or.inr ⟨i, mm, ?_, rfl, hk⟩
+    exact parseWithPrefix_ok _ pinned4.wf _ pfxOk4 i p hi mm hne hl
+      (fun kv hkv => pinned4.slashFree (hl kv hkv)) hn
+
+theorem v4_parse_error (s : Str) (e : Err) (h : V4.parse s = .error e) : e = .malformed ∨ e = .mandatory := by
+  rcases (v4_parse_eq_error s e).1 h with h | ⟨i, m, -, rfl, -⟩
+  · exact Or.inl (parseWithPrefix_error _ pinned4.wf _ _ _ h)
+  · exact Or.inr rfl
+
+/-- non-vacuity: a concrete vector of each version is accepted -/
+example : (match V2.parse c!"AV:N/AC:L/Au:N/C:P/I:P/A:P" with | .ok _ => true | .error _ => false) = true := by decide +kernel
+example : (match V3.parse c!"CVSS:3.1/AV:N/AC:L/PR:N/UI:N/S:U/C:H/I:H/A:H" with | .ok _ => true | .error _ => false) = true := by decide +kernel
+example : (match V4.parse c!"CVSS:4.0/AV:N/AC:L/AT:N/PR:N/UI:N/VC:H/VI:H/VA:H/SC:H/SI:H/SA:H" with | .ok _ => true | .error _ => false) = true := by decide +kernel
 
 end Cvss.Props.C04
